@@ -3,6 +3,7 @@ mod absout;
 mod cli;
 mod concretise;
 mod facets;
+mod lexer;
 mod mutate;
 mod run;
 mod sink;
